@@ -258,7 +258,7 @@ PROPS = {
         unreached=["Duration as fractional milliseconds (value/primitive.rs)", "AttachUnit in the macro", "distribution.rs Mean / Distribution"],
     ),
     "C20": dict(
-        verus=[("mrs", {}), ("mrs_hist", {}), ("mrs_entry", {})],
+        verus=[("mrs", {}), ("mrs_hist", {}), ("mrs_entry", {}), ("mrs_describe", {})],
         technique="Verus contracts on the real metrics.rs bridge readout (visitor callbacks rewritten to loops over the registered metrics) on the bridge's histogram cell (record, drain with closure contracts, midpoint), and on the readout entry's Entry::write with loop invariants over a ghost item log (plus its MultiObservation value)",
         level_text="Deductive proof (Verus/z3) of the sequential half of a readout, for any number of registered metrics: every registered counter is swapped to zero exactly once and the value swapped out is what the readout reports for it "
                    "(suppressed only when it is zero and zero counters are not emitted); every gauge is loaded once and reported as that bit pattern; every histogram is drained once and its buckets reported; the reported lists are "
@@ -266,14 +266,15 @@ PROPS = {
                    "Writing a readout (for any numbers of counters, gauges, histograms): the timestamp if there is one, the split-entries configuration, then every counter, every gauge and every histogram exactly once, in that order - "
                    "each under its registered name, with its labels as dimensions in order, its described unit (the unit map's entry for that name, else Unit::None), no flags, and the observations [Unsigned(count)] / [Floating(value)] / "
                    "one Repeated{value x count, count} per bucket (no wrapping integer arithmetic). "
-                   "NOT decided: atomicity of swap / drain against concurrent updates (the property's interleaving quantifier), how units get into the unit map (describe_*), the reporter loop.",
+                   "describe_counter / describe_gauge / describe_histogram register the mapped unit under the key's name (they wait for the map's write lock and never skip the registration). "
+                   "NOT decided: atomicity of swap / drain against concurrent updates (the property's interleaving quantifier), the metrics-rs -> metrique unit mapping (unit.rs), the reporter loop.",
         level_note="Trusted: Verus + z3; metrics-util's Registry visitors call their callback once per registered metric (rewrite V1 turns the three callbacks, which push into captured vectors, into loops over a stand-in iterator); AtomicU64::swap / load and "
                    "AtomicHistogram::drain are witnessed by predicates (linearizable atomics assumed); sort_by(key) is a permutation (V2); the `histogram` dependency as in C11. A bucket count is truncated to u32 by the code (more than 2^32 observations "
                    "in one bucket between two readouts would be under-reported): stated, not claimed. Entry::write: exact-text rewrites E1-E5 (Clone of an iterable keeps its elements, `.iter().cloned()`, the `const { .. }` configuration "
                    "object, `&Unit::None`, `buckets.iter()`), R3b, R14, R27, float casts opaque; the metrics.rs version shim's key_name / key_labels are a stand-in trait (a name converted into the writer's Cow<str> keeps its text).",
         explanation="metrics.rs bridge readout and histogram cell, sequential contracts",
         assumptions=["atomic swap(0) / drain are linearizable, so an increment lands in exactly one readout", "Registry::visit_* visits every registered metric exactly once"],
-        unreached=["reporter task", "describe_* (how the unit map is filled), unit.rs mapping"],
+        unreached=["reporter task", "unit.rs mapping (metrics-rs unit -> metrique unit)"],
     ),
     "C17": dict(
         verus=[("globalsink", {"tl": "contract", "refute_with": [{"tl": "bare"}]}), ("globalguards", {})],
